@@ -1,8 +1,8 @@
 import ErdosVerif.Driver.Util
-namespace ErdosVerif.Driver.Mip
+namespace ErdosVerif.Driver.MipTetri
 open Lean ErdosVerif.Driver
 
 /-- Suite handler: one JSON case in, one JSON reply out (stub until the suite is built). -/
 def handle (_j : Json) : Json := Json.mkObj [("protocol_error", Json.str "suite-not-built")]
 
-end ErdosVerif.Driver.Mip
+end ErdosVerif.Driver.MipTetri
